@@ -332,8 +332,8 @@ def worker_main(pid, subname, shard, tier, seed, outpath):
             status, info, spec = one(spec)
             res["enumerated"] += 1
             if status == "violation":
-                res["violation"] = {"spec": spec, "oracle": info.oracle, "message": str(info),
-                                    "detail": info.detail}
+                res["violation"] = {"spec": info.detail.pop("replay_spec", spec), "oracle": info.oracle,
+                                    "message": str(info), "detail": _sanitize(info.detail)}
                 break
             if status == "harness":
                 res["harness"] = info
@@ -359,8 +359,9 @@ def worker_main(pid, subname, shard, tier, seed, outpath):
                 return
             status, info, spec = one(spec, count=state["fail"] is None)
             if status == "violation":
-                state["fail"] = {"spec": spec, "oracle": info.oracle, "message": str(info),
-                                 "detail": info.detail}
+                det = dict(info.detail)
+                state["fail"] = {"spec": det.pop("replay_spec", spec), "oracle": info.oracle, "message": str(info),
+                                 "detail": _sanitize(det)}
                 raise info
             if status == "harness":
                 state["harness"] = info
